@@ -100,24 +100,26 @@ PROPS["C05"] = {
                          "everything of vm.rs / wasm.rs that is not cut (Machine::execute, wasmtime plumbing)"],
 }
 PROPS["C12"] = {
-    "verus_units": ["heap", "usersum"],
+    "verus_units": ["heap", "usersum", "closures"],
     "replay": "boxed",
     "replay_units": ["usersum"],
     "kani_units": [RUNTIME_C12],
-    "floor": {"obligations": 29},
+    "floor": {"obligations": 43},
     "trusted_base": [
         "unit usersum: model of the interned types (TypeNodeId::to_type/word_size, a `Type` enum with the five variants the walkers distinguish and `Other` for the rest; type trees are finite: axiom_rank), heap functions as callee contracts with a ghost operation log, Machine::get_as::<HeapIdx> (transmute) as handle_of, vx_find_usersum for the type_table lookup (`iter().find(.. matches! ..)`)",
         "release_usersum_recursive is verified for partial correctness only (exec_allows_no_decreases_clause): it follows handles into heap objects while freeing, termination depends on the heap being acyclic",
         "model of slotmap::SlotMap<DefaultKey, V> (finite map + ghost set of issued keys; get_mut / remove contracts) — third-party crate, validated bounded by the Kani harness slotmap_model_validation on the real slotmap",
         "vstd specifications of Vec and vec![0; n]",
+        "unit closures: ASSUMED effect of Machine::drop_closure (recursive walk over Rc<RefCell<UpValue>> cells with filter_map closures capturing self: outside Verus) as an uninterpreted state transformer drop_post that keeps heap_wf; ASSUMED allocate_closure (fresh live open closure, heap untouched); heap_release as the map transformer proved in unit heap; Machine reduced to its `closures` and `heap` fields; get_as::<ClosureIdx> / to_value (transmutes) as closure_of / raw_of with closure_of(raw_of(c)) == c; std bool::then_some (eager argument); SlotMap model extended with get / insert / unsafe get_unchecked (requires a live key)",
     ],
-    "assumptions": ["data-structure invariant heap_wf (every live object has refcount >= 1 and size == data.len()) holds on entry; it is established by HeapObject::{new,with_data} and preserved by all three operations (proved)",
+    "assumptions": ["unit closures, caller-side VM invariant (precondition, not proved): every frame-local heap closure wrapper is `[closure handle]` naming a live closure at the moment it is released (wrappers_ok), every frame-local plain closure is live when released (closures_live). Observation: release_heap_closure's `(!obj.data.is_empty()).then_some(.. obj.data[0] ..)` evaluates obj.data[0] eagerly, so the emptiness guard does not protect the index -- a wrapper with empty data would panic; no wrapper is ever created empty (allocate_heap_closure, proved)",
+                    "data-structure invariant heap_wf (every live object has refcount >= 1 and size == data.len()) holds on entry; it is established by HeapObject::{new,with_data} and preserved by all three operations (proved)",
                     "heap_retain: refcount < u64::MAX (2^64 retains of one object cannot occur)"],
     "not_covered": [
-        "whether the compiler emits balanced Clone/Release/Close (insert_*_recursively in mirgen.rs); the closure-side walkers drop_closure / release_heap_closure (need the whole Machine)",
+        "whether the compiler emits balanced Clone/Release/Close (insert_*_recursively in mirgen.rs); drop_closure itself and close_upvalues_by_idx (Rc<RefCell<UpValue>> cells, filter_map closures capturing self: assumed transformer in unit closures)",
         "boundedness of live closures/objects over time: a whole-history property of generated programs",
     ],
-    "explanation": "C12: (usersum) the two type-directed walkers agree on WHERE the heap handles of a value are: `slots(ty, data)` is the layout function (boxed / type-alias word, tag-selected variant payload, tuple and record fields at prefix-sum offsets); clone_usersum_recursive retains exactly slots(ty,data), once each, in order; release_usersum_recursive releases every handle of slots(ty,data) (log monotone); heap-object clause: heap_retain / heap_release / heap_release_closure proved against the abstract map view (exact effect, frame, no arithmetic underflow, last release removes the object and the handle no longer resolves); balance lemma over the contracts (ghost history); the same contracts checked bit-precisely on the real slotmap by Kani with a bounded population.",
+    "explanation": "C12: (closures) at scope exit release_heap_closures releases every recorded wrapper exactly once, in order, dropping the wrapped closure exactly when it has not escaped (rel_all over rel_hc, relative to the assumed drop_closure transformer); release_open_closures drops exactly the still-open closures; allocate_heap_closure yields a fresh one-reference wrapper `[handle]` naming a fresh live open closure; get_closure's unchecked access is safe under key liveness. (usersum) the two type-directed walkers agree on WHERE the heap handles of a value are: `slots(ty, data)` is the layout function (boxed / type-alias word, tag-selected variant payload, tuple and record fields at prefix-sum offsets); clone_usersum_recursive retains exactly slots(ty,data), once each, in order; release_usersum_recursive releases every handle of slots(ty,data) (log monotone); heap-object clause: heap_retain / heap_release / heap_release_closure proved against the abstract map view (exact effect, frame, no arithmetic underflow, last release removes the object and the handle no longer resolves); balance lemma over the contracts (ghost history); the same contracts checked bit-precisely on the real slotmap by Kani with a bounded population.",
     "samples": [
         {"obligation": "heap_release::ensures", "clause": "rc==1 ==> storage' == storage.remove(idx) && !storage'.contains_key(idx)"},
         {"obligation": "lemma_balance", "clause": "run(Some(n), ops) == Some(n + retains(ops) - releases(ops)) while every prefix releases fewer than exist"},
@@ -188,7 +190,15 @@ PROPS["C20"] = {
 PROPS["C13"] = {
     "verus_units": ["parser_tokens", "preparse"],
     "replay": "parser",
-    "floor": {"obligations": 35},
+    "frames": [
+        {"name": "Parser cursor and leaves are written only by new/bump",
+         "file": "crates/lib/mimium-lang/src/compiler/parser/cst_parser.rs",
+         "impls": ["Parser", "NodeBuilder for Parser"], "receivers": ["self", "this", "p", "parser"],
+         "fields": ["current", "builder", "preparsed", "tokens"], "calls": [["builder", "add_token"]],
+         "allowed": ["new", "bump"], "must_exist": ["bump", "parse", "parse_statement", "expect"],
+         "searcher": "cst"},
+    ],
+    "floor": {"obligations": 36},
     "trusted_base": [
         "ASSUMED contract of the chumsky lexer built in tokenize (vx_chumsky_lex): it always yields a token vector and the spans it hands out tile the input (third-party combinators: outside any verifier's reach); model of chumsky MapExtra::span / SimpleSpan",
         "ASSUMED contract of split_projection_float_tokens (FnMut closure capturing &mut Vec, str::split_once, chars(): outside Verus): re-splitting a float after a dot keeps the tiling",
